@@ -69,15 +69,20 @@ Fixpoint join (sep : string) (l : list string) : string :=
   | x :: r => x ++ sep ++ join sep r
   end.
 
+(** the characters [str.strip()] removes, restricted to Latin-1: [c.isspace()] holds for
+    \t \n \x0b \x0c \r \x1c-\x1f, the space, \x85 (NEL) and \xa0 (no-break space) *)
+Definition py_isspace (a : ascii) : bool :=
+  let n := nat_of_ascii a in
+  ((9 <=? n) && (n <=? 13) || (28 <=? n) && (n <=? 32) || (n =? 133) || (n =? 160))%nat.
 Fixpoint lstrip_sp (s : string) : string :=
   match s with
-  | String a r => if Ascii.eqb a " "%char then lstrip_sp r else s
+  | String a r => if py_isspace a then lstrip_sp r else s
   | EmptyString => EmptyString
   end.
 Fixpoint rev_string_aux (s acc : string) : string :=
   match s with EmptyString => acc | String a r => rev_string_aux r (String a acc) end.
 Definition rev_string (s : string) : string := rev_string_aux s EmptyString.
-(** [s.strip()] on the printable Latin-1 domain (only the ASCII space is white space there) *)
+(** [s.strip()] for Latin-1 strings *)
 Definition strip_sp (s : string) : string := rev_string (lstrip_sp (rev_string (lstrip_sp s))).
 
 Definition str_head (s : string) : option ascii :=
